@@ -63,6 +63,28 @@ class RetrieveTree(object):
         if len(a) != 4:
             raise AnalysisError('%s: retrieve_tree has %d parameters' % (REL, len(a)))
         self.p_item, self.p_tok, self.p_cache, self.p_kw = a
+        # the user data may be a dictionary (kw['stack']) or a record (kw.stack): read a field of it, under either
+        # spelling, as the subscript
+        aliases = {self.p_kw}
+        for _ in range(3):
+            for n_ in ast.walk(self.fn):
+                if isinstance(n_, ast.Assign) and len(n_.targets) == 1 and isinstance(n_.targets[0], ast.Name) \
+                        and isinstance(n_.value, ast.Name) and n_.value.id in aliases:
+                    aliases.add(n_.targets[0].id)
+        class _Fields(ast.NodeTransformer):
+            def visit_Attribute(self_, n_):
+                self_.generic_visit(n_)
+                if isinstance(n_.value, ast.Name) and n_.value.id in aliases and isinstance(n_.ctx, ast.Load):
+                    par = getattr(n_, '_parent', None)
+                    if not (isinstance(par, ast.Call) and par.func is n_):
+                        new_ = ast.Subscript(value=n_.value, slice=ast.Constant(value=n_.attr), ctx=ast.Load())
+                        ast.copy_location(new_, n_)
+                        ast.fix_missing_locations(new_)
+                        new_._parent = par
+                        return new_
+                return n_
+        if any(isinstance(n_, ast.Attribute) and isinstance(n_.value, ast.Name) and n_.value.id in aliases for n_ in ast.walk(self.fn)):
+            _Fields().visit(self.fn)
         self.tree_mod = repo.module('depccg/tree.py')
         self.Tree = self.tree_mod.get('Tree')
         self.paths = []
@@ -257,8 +279,9 @@ def r_retrieve_tree(repo, rep, R, what):
                 if key[0] == 'record':
                     f = dict(key[2])
                     sec = f.get('second')
-                    okk = f.get('first') == ('sym', 'cat-id-of', 'left') and (
-                        sec == second or (k == 'unary' and sec in (N('UINT_MAX'), C(-1))))
+                    # the child's category id: what the recursive call returned for it, or read off the child item itself
+                    okk = f.get('first') in (('sym', 'cat-id-of', 'left'), A(A(item, 'left'), 'cat')) and (
+                        sec == second or (k == 'unary' and sec in (N('UINT_MAX'), C(-1))) or (k == 'binary' and sec == A(A(item, 'right'), 'cat')))
                     detail = 'cache[(%s, %s)][item.rule_id]' % (show(f.get('first')), show(sec))
             rep.check(okk, R, w(rt.fn), 'retrieve_tree:%s:lookup' % k,
                       'the %s node looks its rule up as cache[(child ids)][item.rule_id]: %s' % (k, detail),
@@ -330,8 +353,9 @@ def r_category_table(repo, rep, R):
     for st, out in SymExec(add).run():
         if out == 'raise':
             continue
-        new = any(c == ('cmp', 'not in', N(a), N(index)) and pol or c == ('cmp', 'in', N(a), N(index)) and not pol
-                  for c, pol, _ in st.conds)
+        conds_ = [(c, pol) for c, pol, _ in st.conds]
+        new = logic.implied(conds_, logic.neg(('atom', ('in', N(a), N(index)))))
+        known = logic.implied(conds_, ('atom', ('in', N(a), N(index))))
         apps = [e for e in st.events if e[0] == 'call' and e[1][1] == A(N(table), 'append')]
         sets = [e for e in st.events if e[0] == 'setitem' and e[1] == N(index)]
         muts = [e for e in st.events if e[0] in ('del', 'aug') or (e[0] == 'call' and e[1][1][0] == 'attr'
@@ -350,7 +374,8 @@ def r_category_table(repo, rep, R):
         else:
             ok = not apps and not sets and not muts
             detail.append('known: no change' if ok else 'known: table modified')
-        okp = okp and ok and (st.ret == S(N(index), N(a)) or (new and sets and st.ret == sets[0][3]))
+        looked_up = (S(N(index), N(a)),) + ((('call', A(N(index), 'get'), (N(a),), ()),) if known else ())
+        okp = okp and ok and (st.ret in looked_up or (new and sets and st.ret == sets[0][3]))
     rep.check(okp, R, w(add), 'run:adder:append-only',
               'a new category is appended and gets id = previous table size; known categories change nothing (%s)' % '; '.join(detail),
               'category table update is not append-only with id = position: %s' % '; '.join(detail))
